@@ -405,6 +405,12 @@ def run(ctx):
     record_and_accept(ctx, binp, binm)
     # 5. the built binary
     binary_level(ctx, cscns)
+    # "a case is run iff it matches some --run pattern and no --skip pattern" is a statement about run(): the trie, the
+    # collection and the report are bound above; that run() applies the filter to the names the permutations really
+    # have (the grpc-go peers' permutations carry a marker component) is the reference-mode selection leg of C05
+    # (Trace_Select: outcomes == GlobDecl.SelectedSet over all names), reduced to two pattern sets here
+    import c05
+    c05.reference_mode(ctx, only=[0, 4, 5] if ctx.quick else None)
     # growth item: the command-line contract of the runner (CLI.tla: which flag combinations are usage errors, in which
     # order they are diagnosed, and what a valid command line means) bound to the real command
     g_cli.leg(ctx)
